@@ -663,6 +663,25 @@ pub fn run(out: &mut Out, tier: &str, seed: u64, prop: &str) {
             }
         }
         out.notes.push(format!("exhaustive: URL tails of length <= {max_len} over {:?} x {} following contexts", alphabet, contexts.len()));
+        // the same with whitespace that is not ASCII whitespace (NBSP, LINE SEPARATOR, VT, IDEOGRAPHIC SPACE, NEL):
+        // the rule says "whitespace", and the tokenizer's notion is `char::is_whitespace`
+        let wide = ['x', ';', '#', ' ', '\u{a0}', '\u{2028}', '\u{b}', '\u{3000}', '\u{85}'];
+        let mut cur: Vec<String> = vec![String::new()];
+        for _ in 0..(if big { 4 } else { 3 }) {
+            let mut next = Vec::new();
+            for t in &cur { for a in wide { next.push(format!("{t}{a}")); } }
+            for t in &next {
+                if t.is_ascii() { continue; }
+                for ctx in ["", " ; os_name == 'a'", "sha256=abc", "\u{a0}; os_name == 'a'"] {
+                    let after_at = format!(" https://h.org/p{t}{ctx}");
+                    let text = format!("n @{after_at}");
+                    let ans = req_case(out, &mut w, &mut rc, prop, &text, &vars);
+                    url_rule_oracle(out, &text, &after_at, &ans, &vars);
+                    out.stat("c18.non_ascii_whitespace_tails");
+                }
+            }
+            cur = next;
+        }
         // variable expansion
         let urls = ["https://h.org/${VP_HOME_DIR}/a", "https://h.org/${VP_UNSET}/a", "https://h.org/${VP_EMPTY}a", "file://${PROJECT_ROOT}/a", "https://h.org/${vp_lower}", "https://h.org/${}",
             "https://h.org/$VP_HOME_DIR", "https://h.org/${VP_HOME_DIR", "https://h.org/${VP_HOME_DIR}${VP_HOME_DIR}", "https://h.org/$${VP_HOME_DIR}}", "https://h.org/${VP_TOKEN_1}@x", "https://${VP_HOME_DIR}",
